@@ -21,6 +21,7 @@ ASSUMPTIONS = [
 NSHARDS = {"quick": 32, "thorough": 64}
 BUDGET_S = {"quick": 240, "thorough": 2400}
 EXTRA_BUILDS = {"thorough": ["asan"]}
+GENERIC_REL = False  # own release stage in extra_stages
 GUARD_C = 1 << 20
 GUARD_K = 1024
 # serde-based document decoders pre-allocate a capped (<= 4096 element) vector per declared array, i.e. a bounded amount per ~10 input bytes
@@ -207,6 +208,21 @@ def cases(ctx):
                     for _ in range(r.choice([1, 1, 2, 4])):
                         s = text_mutate(r, s)
                     yield mk(which, kind, s, "mutant")
+        # 4a. text decoders: a 2-, 3- and 4-byte UTF-8 character inserted at / substituted for EVERY character position of the valid
+        # texts (byte-offset slicing that lands inside a character panics only for particular positions)
+        if kind != "bytes":
+            for v in valid:
+                n = len(v)
+                pos = range(n + 1) if n <= 300 or t else sorted(set(list(range(0, 150)) + list(range(n - 100, n + 1)) + [r.randrange(n) for _ in range(100)]))
+                for p in pos:
+                    k += 1
+                    if k % N != S and not t:
+                        if n > 40:
+                            continue
+                    for ch in ("\u00e9", "\u4e2d", "\U0001f600"):
+                        yield mk(which, kind, v[:p] + ch + v[p:], "unicode_at_position")
+                        if p < n:
+                            yield mk(which, kind, v[:p] + ch + v[p + 1 :], "unicode_at_position")
         # 4b. Base58Check strings with a VALID checksum over a payload of every length 0..90 (length checks behind the checksum gate)
         if which in ("privkey_from_wif", "addr_from_string", "xprv_from_string", "xpub_from_string", "addr_serde_json"):
             for L in range(0, 91):
